@@ -22,7 +22,7 @@ Proof.
   destruct IR as [In Il Iw Ir Ic Iok Ish].
   destruct Ish as [(A & T & C)|(A & _)]; [|lia].
   unfold accepts, step.
-  replace ((1 <=? nb) && (nb <? 2147483648)) with true
+  replace ((0 <=? nb) && (nb <? 2147483648)) with true
     by (symmetry; apply andb_true_intro; split; [apply Z.leb_le|apply Z.ltb_lt]; lia).
   unfold w_alloc_bytes, w_alloc_cachelines.
   destruct (Z.ltb_spec (crem (hr h)) (cal_cachelines nb)) as [C1|C1].
@@ -95,7 +95,8 @@ Lemma wit_a : h_alloc wit_h = None. Proof. vm_compute. reflexivity. Qed.
 Lemma wit_f : snd (step wit_h OFetch) = RFetch None. Proof. vm_compute. reflexivity. Qed.
 Lemma wit_inv : Inv 8 wit_h (snd (reach (hinit 8) [] wit_pre)).
 Proof.
-  unfold wit_h. rewrite <- (reach_run wit_pre (hinit 8) []). apply reach_inv; [lia|]. apply init_inv. lia.
+  unfold wit_h. rewrite <- (reach_run wit_pre (hinit 8) []). apply reach_inv; [lia| |apply init_inv; lia].
+  unfold wit_pre, sized. repeat constructor; cbn [sized_op]; lia.
 Qed.
 Lemma wit_refused : ~ accepts wit_h 100.
 Proof.
@@ -123,3 +124,49 @@ Proof.
   split; [vm_compute; discriminate|]. split; [split; vm_compute; discriminate|].
   split; [vm_compute; reflexivity|]. exact wit_for_ever.
 Qed.
+
+(* ---- the same with an explicit footprint (w_alloc_cachelines): a ring drained at line p accepts a request
+   for nc lines (nc at least what the message needs) exactly when nc <= max (n-1-p) (p-1) ---- *)
+Definition accepts_cl (h : harness) (nb nc : Z) : Prop :=
+  exists off, snd (step h (OAllocCl nb nc)) = RAlloc (Some off).
+
+Lemma drained_alloc_cl n h q p nb nc : 1 <= n < 2147483648 ->
+  Inv n h q -> wcur (hr h) = p -> rcur (hr h) = p -> 1 <= nb < 2147483648 -> cal_cachelines nb <= nc < 2147483648 ->
+  (accepts_cl h nb nc <-> nc <= Z.max (n - 1 - p) (p - 1)) /\
+  (~ accepts_cl h nb nc -> step h (OAllocCl nb nc) = (h, RAlloc None)).
+Proof.
+  intros Hn [IR IP IF] Hw Hr Hnb Hnc. pose proof (cal_bounds nb ltac:(lia)) as (K1 & K2 & K3).
+  destruct IR as [In Il Iw Ir Ic Iok Ish].
+  destruct Ish as [(A & T & C)|(A & _)]; [|lia].
+  unfold accepts_cl, step.
+  replace ((0 <=? nb) && (nb <? 2147483648) && (cal_cachelines nb <=? nc) && (nc <? 2147483648)) with true
+    by (symmetry; repeat (apply andb_true_intro; split); first [apply Z.leb_le|apply Z.ltb_lt]; lia).
+  unfold w_alloc_cachelines.
+  destruct (Z.ltb_spec (crem (hr h)) nc) as [C1|C1].
+  - unfold update_cached_remain. rewrite Z.gtb_ltb.
+    destruct (Z.ltb_spec (wcur (hr h)) (rcur (hr h))) as [X|_]; [lia|].
+    rewrite In. rewrite (u32_id (n - wcur (hr h) - 1)) by lia. rewrite (s32_id (rcur (hr h))) by lia.
+    rewrite (s32_id nc) by lia. rewrite !Z.geb_leb.
+    destruct (Z.leb_spec nc (n - wcur (hr h) - 1)) as [R|R].
+    + unfold set_crem. psimpl. destruct (Z.ltb_spec (n - wcur (hr h) - 1) nc); [lia|].
+      unfold alloc_finish. psimpl. split; [split; [lia|eexists; reflexivity]|].
+      intros X. exfalso. apply X. eexists; reflexivity.
+    + destruct (Z.leb_spec nc (rcur (hr h) - 1)) as [L|L].
+      * psimpl. rewrite u32_id by lia. destruct (Z.ltb_spec (rcur (hr h) - 1) nc); [lia|].
+        unfold alloc_finish. psimpl. split; [split; [lia|eexists; reflexivity]|].
+        intros X. exfalso. apply X. eexists; reflexivity.
+      * destruct (Z.ltb_spec (crem (hr h)) nc); [|lia]. psimpl.
+        split; [split; [intros (off & X); discriminate|lia]|].
+        intros _. destruct h as [s a f]. reflexivity.
+  - unfold alloc_finish. psimpl. split; [split; [lia|eexists; reflexivity]|].
+    intros X. exfalso. apply X. eexists; reflexivity.
+Qed.
+
+(* non-vacuity: fixed 8-line slots on a ring of 32 lines; after three slots were sent and consumed the ring is
+   drained at line 24: a fourth slot does not fit on the right (7 lines) but fits on the left (23): it wraps *)
+Example drained_cl_example :
+  let h := fst (run (hinit 32) [OAllocCl 10 8; OCommit; OAllocCl 300 8; OCommit; OAllocCl 47 8; OCommit;
+                                OFetch; ORMove; OFetch; ORMove; OFetch; ORMove]) in
+  wcur (hr h) = 24 /\ rcur (hr h) = 24 /\ snd (step h (OAllocCl 100 8)) = RAlloc (Some 8) /\
+  snd (step h (OAllocCl 100 24)) = RAlloc None.
+Proof. vm_compute. repeat split; reflexivity. Qed.
